@@ -10,14 +10,12 @@ RULE = ('every ordering of the LaTeX-active ASCII characters (\\ { } $ & # ^ _ ~
         'sets x 5 unknown-character policies. Non-trivial: the input contains an active ASCII character or a table character.')
 EXHAUSTIVE = {'quick': True, 'thorough': True}
 ASSUMPTIONS = ['inputs are NFC-normalised by the harness', 'the strict parser used on the output is the default walker database']
-PARTIAL = ['C13_parses_inert_partial: the DESIGN statement C13_parses_inert (the output of EVERY string parses strictly with no comment / '
-           'environment / math of its own) is NOT proved: it needs the compositional parser theorem (obligations listed in '
-           'Properties/C13.v). Proved instead: (all strings) C13_ascii, C13_fail_iff, C13_total_unless_fail, C13_encoding_is_chunkwise; '
-           '(finite sweeps over both regenerated tables) C13_tables_ascii, C13_active_ascii_escaped, C13_single_characters_parse, '
-           'C13_known_findings_fail, C13_known_findings_are_exact; (bounded-exhaustive over input strings) C13_active_orderings_bounded = '
-           'every string of length <= 3 over the ten active characters, a letter and a space x 2 tables x 5 schemes; '
-           'C13_parses_inert_partial is the restriction to one-character strings (any key of either table that is not a known finding, '
-           'any pass-through character). Longer strings are covered by the correspondence and the oracle on the real code only.']
+PARTIAL = ['C13_parses_inert_partial (kept): one-character strings under all FIVE schemes. The central clause for EVERY string is now '
+           'C13_parses_inert_unbounded (not partial): any string over characters other than the 13 known findings, both tables, the four '
+           'brace-protection schemes, the five named policies -> strict parse, no comment, no environment, math only from table entries '
+           'containing $. Remaining outside any unbounded theorem: scheme \'none\' (documented unsafe; machine-checked counterexample '
+           'C13_scheme_none_counterexample: U+0142 + "abel" -> \\label, strict parse error) where only the one-character theorem, '
+           'C13_active_orderings_bounded, the correspondence and the oracle apply; callable policies / protections.']
 REFUTED = []
 CASE_TIMEOUT = 10.0
 PROTS = ['none', 'braces', 'braces-all', 'braces-almost-all', 'braces-after-macro']
